@@ -289,6 +289,6 @@ def run(chk, prog):
     # ---- RD: dimensional consistency of the quantities this property depends on (sa/dims.py) ----------------------------------------
     from . import dimrules
     nrd = dimrules.run(chk, prog, "RD")
-    chk.floor("RD-requirements", nrd or 0, 2)
+    chk.floor("RD-requirements", nrd or 0, 1)
     chk.notes.append("C09: bunch subscripts, moment/projection/Simpson formulas, normalisation factor and coverage, copy path. "
                      "NOT decided: discretisation error of the moments.")
